@@ -5,6 +5,8 @@ import NdnProofs.Lemmas.Lvs.Example
 import NdnProofs.Lemmas.Lvs.CompileStatic
 import NdnProofs.Lemmas.Lvs.CompileExample
 import NdnProofs.Lemmas.Lvs.CompileComplete
+import NdnProofs.Lemmas.Lvs.SrcShape
+import NdnProofs.Lemmas.Lvs.SrcExec
 /-!
 # C13 — ill-formed models are rejected; every query on an accepted model terminates
 
@@ -19,7 +21,9 @@ The compiler is modelled too (`NdnModel/Lvs/{Ast,Compile}.lean`: `Ndn.Lvs.compil
 the schema-level half of the property is proved for it: `compile_ok_iff_static` (it raises, and then
 `SemanticError`, exactly on the schemas with a static error), `compile_rejects_*` (each kind of static error),
 `compile_sane` / `compile_accepted_iff` (what it emits is accepted by the loader iff there is no signing
-cycle); see `compile_sane_partial` for what is left.
+cycle among its nodes); the node-level cycle is read back at the level of the text in `compile_sane_src`
+(no shape of a name pattern is the shape of one of its own signers ⇒ accepted) and
+`mergedSigner_counterexample` (an acyclic rule-level signing graph is NOT enough); see `compile_sane_partial`.
 -/
 namespace Ndn.C13
 open Ndn Ndn.Lvs
@@ -226,6 +230,94 @@ theorem compile_static_sane (S : Schema) (hwf : S.WF) (hst : StaticOK S) :
   obtain ⟨⟨m, syms⟩, h⟩ := compile_complete S hst
   exact ⟨m, syms, h, (compile_structure_sane S hwf m syms h).1, compile_accepted_iff S hwf m syms h⟩
 
+/-! ### the signing cycle read back at the level of the text -/
+
+/-- **signCycle_shapeSelfSigning.** A signing cycle among the reachable nodes of the compiled model is a cycle among the
+    shapes of the name patterns of the text: a non-empty set of shapes (of expansions of definitions) each of which is the
+    shape of an expansion of a rule that a definition with an expansion of a shape in the set lists as signer. -/
+theorem signCycle_shapeSelfSigning (S : Schema) (hwf : S.WF) (m : Model) (syms : List String)
+    (h : compile S = .ok (m, syms)) (hcy : SignCycle m) : ShapeSelfSigning ⟨renameTemps S.rules 1⟩ := by
+  unfold compile at h
+  split at h
+  · simp at h
+  · rename_i chains named hch
+    split at h
+    · simp at h
+    · rename_i m' hb
+      injection h with h
+      simp only [Prod.mk.injEq] at h
+      obtain ⟨rfl, rfl⟩ := h
+      obtain ⟨C, hne, hC⟩ := hcy
+      obtain ⟨P, hP1, hP2⟩ := signCycle_shapes chains named m' (chainsOf_ok S hwf chains named hch) hb C hne
+        (fun c hc => by obtain ⟨p, hp, _, pnode, hpn, hk⟩ := hC c hc; exact ⟨p, hp, pnode, hpn, hk⟩)
+      refine ⟨P, hP1, fun s hs => ?_⟩
+      obtain ⟨p, hp, hps⟩ := hP2 s hs
+      exact ⟨p, hp, chainShapes_src S chains named hch hps⟩
+
+/-- **compile_sane_src** (the positive clause at the level of the text).  A schema the parser can produce that compiles,
+    and in which no shape of a name pattern is, directly or transitively, the shape of one of its own signers
+    (`ShapeSelfSigning`, `NdnModel/Lvs/SrcSem.lean`), yields a model the loader accepts. -/
+theorem compile_sane_src (S : Schema) (hwf : S.WF) (m : Model) (syms : List String)
+    (h : compile S = .ok (m, syms)) (hns : ¬ ShapeSelfSigning ⟨renameTemps S.rules 1⟩) : sanityCheck m = .ok () :=
+  compile_sane S hwf m syms h fun hcy => hns (signCycle_shapeSelfSigning S hwf m syms h hcy)
+
+/-- **static_sane_src.** In one piece: no static error and no self-signing shape ⇒ the schema compiles and the loader
+    accepts the result. -/
+theorem static_sane_src (S : Schema) (hwf : S.WF) (hst : StaticOK S)
+    (hns : ¬ ShapeSelfSigning ⟨renameTemps S.rules 1⟩) :
+    ∃ m syms, compile S = .ok (m, syms) ∧ sanityCheck m = .ok () := by
+  obtain ⟨⟨m, syms⟩, h⟩ := compile_complete S hst
+  exact ⟨m, syms, h, compile_sane_src S hwf m syms h hns⟩
+
+/-- a cycle in the rule-level signing graph: a non-empty set of rule identifiers each of which is listed as signer by a
+    definition of a member -/
+def RuleSignCycle (S : Schema) : Prop :=
+  ∃ C : List String, C ≠ [] ∧ ∀ c ∈ C, ∃ r ∈ S.rules, r.id ∈ C ∧ c ∈ r.sign
+
+/-- `#a: "k"/x <= #b`, `#b: "k"/x` -/
+def mergedSigner : Schema := { rules := [
+  { id := "#a", name := [.lit Example.cK, .pat "x"], cons := [], sign := ["#b"] },
+  { id := "#b", name := [.lit Example.cK, .pat "x"], cons := [], sign := [] }] }
+
+/-- **mergedSigner_counterexample.** "The rule-level signing graph is acyclic" does NOT imply that the loader accepts:
+    the schema `#a: "k"/x <= #b`, `#b: "k"/x` is well formed, has no static error and no rule-level signing cycle, it
+    compiles — and the loader refuses the model with `SemanticError`, because the two rules have the same name pattern and so
+    end at the same node, which then lists itself as signer.  (The real `compile_lvs` / `Checker` do the same: replayed by the
+    harness, corpus case `merged-signer`.) -/
+theorem mergedSigner_counterexample :
+    mergedSigner.WF ∧ StaticOK mergedSigner ∧ ¬ RuleSignCycle mergedSigner ∧
+    ∃ m syms, compile mergedSigner = .ok (m, syms) ∧ sanityCheck m = .error .semanticError := by
+  have hc : ∃ m syms, compile mergedSigner = .ok (m, syms) ∧ sanityCheck m = .error .semanticError := by
+    have : (match compile mergedSigner with
+        | .ok (m, _) => (match sanityCheck m with | .error .semanticError => true | _ => false)
+        | .error _ => false) = true := by decide +kernel
+    split at this
+    · rename_i m syms heq
+      refine ⟨m, syms, heq, ?_⟩
+      split at this
+      · assumption
+      · simp at this
+    · simp at this
+  obtain ⟨m, syms, h1, h2⟩ := hc
+  refine ⟨Schema.wf_of_all _ (by decide), (compile_ok_iff_static _).1.mp ⟨_, h1⟩, ?_, m, syms, h1, h2⟩
+  rintro ⟨C, hne, hC⟩
+  obtain ⟨c, hc⟩ := List.exists_mem_of_ne_nil _ hne
+  obtain ⟨r, hr, hrC, hcs⟩ := hC c hc
+  simp only [mergedSigner, List.mem_cons, List.not_mem_nil, or_false] at hr
+  rcases hr with rfl | rfl
+  · obtain ⟨r', hr', _, hcs'⟩ := hC "#a" hrC
+    simp only [mergedSigner, List.mem_cons, List.not_mem_nil, or_false] at hr'
+    rcases hr' with rfl | rfl <;> simp at hcs'
+  · simp at hcs
+
+/-- … and it is self-signing at the level of shapes, as `compile_sane_src` requires it to be -/
+theorem mergedSigner_selfSigning : ShapeSelfSigning ⟨renameTemps mergedSigner.rules 1⟩ := by
+  obtain ⟨hwf, _, _, m, syms, h1, h2⟩ := mergedSigner_counterexample
+  apply Classical.byContradiction
+  intro hns
+  rw [compile_sane_src mergedSigner hwf m syms h1 hns] at h2
+  simp at h2
+
 /-- **compile_sane_partial.**  Full statement:
     `WFSchema S → no name pattern of S is its own signer → sanityCheck (compile S) = ok`, and
     `¬ WFSchema S → compile S = error SemanticError`.
@@ -233,9 +325,16 @@ theorem compile_static_sane (S : Schema) (hwf : S.WF) (hst : StaticOK S) :
     `SemanticError` (`compile_ok_iff_static`, `compile_rejects_*`, `compile_only_semantic_errors`); every model
     it emits is structurally sane, and is accepted iff its nodes do not sign each other in a cycle, else
     `SemanticError` (`compile_structure_sane`, `compile_accepted_iff`, `compile_sane`, `compile_static_sane`).
-    Not proved: the reading of the node-level `SignCycle` in terms of the source rules ("no name pattern is
-    its own signer": node merging can make a name pattern its own signer although the rule-level signing
-    graph is acyclic).  That, and model = code, rest on the correspondence run and the schema-level oracle.
+    The node-level `SignCycle` read back in terms of the source rules (below): all rule chains that end at one node
+    have one *shape* (length, and the same component values at the same positions), so a schema in which no shape
+    of a name pattern is — directly or transitively — the shape of one of its own signers is accepted
+    (`compile_sane_src`, `static_sane_src`; "name pattern" = expansion of a definition, `SrcSem.lean`); and the
+    honest negative: an acyclic *rule-level* signing graph does not suffice, because two rules with the same name
+    pattern share one node (`mergedSigner_counterexample`: `#a: "k"/x <= #b`, `#b: "k"/x` compiles and the loader
+    refuses the result; there the name pattern `"k"/x` IS its own signer).  Not proved: the exact criterion (two
+    name patterns share a node iff their merge-key paths are equal — same literals, same pattern numbers with the same
+    constraint sets at first occurrences; the shape criterion is coarser, so some accepted schemas are not covered),
+    and model = code, which rest on the correspondence run and the schema-level oracle.
     Proved here, for *any* model: the loader accepts it exactly when it is sane and `top_order` finds no
     signing loop. -/
 theorem compile_sane_partial (m : Model) : sanityCheck m = .ok () ↔ Sane m ∧ signOK m = true := by
@@ -321,5 +420,54 @@ example : compile Example.schemaTempOpt = .error .semantic :=
   compile_rejects_bad_constraint _ _ List.mem_cons_self _ List.mem_cons_self
     { pat := "x", opts := [.pat "_t"] } List.mem_cons_self
     (Or.inr (Or.inr ⟨.pat "_t", List.mem_cons_self, "_t", List.mem_cons_self, Or.inl (by decide)⟩))
+
+/-- in `#p: "d"/x <= #k`, `#k: "k"/x & {…}` no shape is the shape of one of its signers -/
+theorem example_not_selfSigning : ¬ ShapeSelfSigning ⟨renameTemps Example.schema.rules 1⟩ := by
+  rintro ⟨P, ⟨s, hs⟩, hP⟩
+  have hsort : ∃ srules, sortRuleReferences Example.schema = .ok srules := by
+    cases h : sortRuleReferences Example.schema with
+    | ok srules => exact ⟨srules, rfl⟩
+    | error e =>
+      have := chainsOf_of_sort_error h
+      rw [Example.chainsOf_schema] at this
+      simp at this
+  obtain ⟨srules, hsr⟩ := hsort
+  have hsig : ∀ p s, ShapeSigns ⟨renameTemps Example.schema.rules 1⟩ p s →
+      p = [some Example.cD, none] ∧ s = [some Example.cK, none] := by
+    rintro p s ⟨r, hr, f, hf, rfl, q, hq, g, hg, rfl⟩
+    have hr' : r = ⟨"#p", [.lit Example.cD, .pat "x"], [], ["#k"]⟩ ∨
+        r = ⟨"#k", [.lit Example.cK, .pat "x"], [[{ pat := "x", opts := [.lit Example.cA, .lit Example.cB] }]], []⟩ := by
+      have : renameTemps Example.schema.rules 1 = Example.schema.rules := by decide
+      rw [this] at hr
+      simpa [Example.schema] using hr
+    rcases hr' with rfl | rfl
+    · simp only [List.mem_singleton] at hq
+      subst hq
+      have hg' := (expands_iff_mem_flatsOfRule Example.schema srules hsr "#k" g).mp hg
+      have hf' := (expands_iff_mem_flatsOfRule Example.schema srules hsr "#p" f).mp (expands_iff.mpr ⟨_, hr, rfl, hf⟩)
+      have h1 : ∀ g ∈ flatsOfRule ⟨renameTemps Example.schema.rules 1⟩ ((renameTemps Example.schema.rules 1).length + 1) "#k",
+          g.shape = [some Example.cK, none] := by decide +kernel
+      have h2 : ∀ g ∈ flatsOfRule ⟨renameTemps Example.schema.rules 1⟩ ((renameTemps Example.schema.rules 1).length + 1) "#p",
+          g.shape = [some Example.cD, none] := by decide +kernel
+      exact ⟨h2 f hf', h1 g hg'⟩
+    · simp at hq
+  obtain ⟨p, hp, hps⟩ := hP s hs
+  obtain ⟨rfl, rfl⟩ := hsig p s hps
+  obtain ⟨p', _, hps'⟩ := hP _ hp
+  have := (hsig p' _ hps').2
+  have hne : ([some Example.cD, none] : List (Option Bytes)) ≠ [some Example.cK, none] := by decide
+  exact hne this
+example : sanityCheck Example.model = .ok () :=
+  compile_sane_src _ Example.schema_wf _ _ Example.compile_schema example_not_selfSigning
+example : ∃ m syms, compile Example.schema = .ok (m, syms) ∧ sanityCheck m = .ok () :=
+  static_sane_src _ Example.schema_wf ((compile_ok_iff_static Example.schema).1.mp ⟨_, Example.compile_schema⟩)
+    example_not_selfSigning
+/-- `#p <= #k`, `#k <= #p`: the node-level cycle of `Example.signLoop` is a cycle of shapes of the text -/
+example : ShapeSelfSigning ⟨renameTemps Example.schemaLoop.rules 1⟩ :=
+  signCycle_shapeSelfSigning _ Example.schemaLoop_wf _ _ Example.compile_schemaLoop
+    ((compile_accepted_iff _ Example.schemaLoop_wf _ _ Example.compile_schemaLoop).2.mp (by
+      simp only [sanityCheck, show structCheck Example.signLoop = true by decide,
+        show signOK Example.signLoop = false by decide]; rfl))
+example : ¬ RuleSignCycle mergedSigner := mergedSigner_counterexample.2.2.1
 
 end Ndn.C13
